@@ -249,11 +249,12 @@ func (c04) Run(t *tape.Tape, tier Tier) *Result {
 	// unknowing process: the same route is replayed at fully knowing
 	// processes with the families unknown to U_j renamed on the wire
 	// (inbound: X -> X#u, outbound: back). Both simulations must observe
-	// the same thing; a disagreement is a harness problem, never a violation.
+	// the same thing: the statement itself describes an unknowing process as
+	// one that is handed family names it has never heard of.
 	if (tier == Thorough || t.Bool(1, 4)) && len(res.Violations) == 0 && fin.ok {
 		world.Full().Install()
 		data := m1
-		for j := 1; j <= m && res.Trouble == ""; j++ {
+		for j := 1; j <= m && res.Trouble == "" && len(res.Violations) == 0; j++ {
 			prof := sim.Procs[j].Prof
 			in, err := world.RenameFamilies(data, func(f string) bool { return !prof.Knows(f) }, true)
 			if err != nil {
@@ -268,7 +269,12 @@ func (c04) Run(t *tape.Tape, tier Tier) *Result {
 			o := obsOf(e)
 			h := h1At[j]
 			if o.shape != h.shape || fmt.Sprintf("%q", o.texts) != fmt.Sprintf("%q", h.texts) || fmt.Sprint(o.types) != fmt.Sprint(h.types) {
-				res.Trouble = fmt.Sprintf("H1 and wire renaming disagree at hop %d (%s): H1 %s %q %v / renaming %s %q %v", j, prof.Name, h.shape, h.texts, h.types, o.shape, o.texts, o.types)
+				// a process handed families it has never heard of (the
+				// statement's own way of simulating an unknowing process) must
+				// make of the message what a process lacking the decoders makes of it
+				res.add(Violation{Prop: "C04", Oracle: "unknown-family-kept-opaque", Culprit: prof.Name,
+					Expected: short(fmt.Sprintf("%s %q %v", h.shape, h.texts, h.types)), Observed: short(fmt.Sprintf("%s %q %v", o.shape, o.texts, o.types)),
+					Where: fmt.Sprintf("hop %d, families unknown to %s renamed on the wire", j, prof.Name)})
 				break
 			}
 			out, p2 := obs.Encode(e)
@@ -280,7 +286,7 @@ func (c04) Run(t *tape.Tape, tier Tier) *Result {
 				res.Trouble = "rename back: " + err.Error()
 			}
 		}
-		if res.Trouble == "" {
+		if res.Trouble == "" && len(res.Violations) == 0 {
 			if e, p := obs.Decode(data); p == "" && e != nil {
 				o := obsOf(e)
 				var ft, fy []string
@@ -289,7 +295,9 @@ func (c04) Run(t *tape.Tape, tier Tier) *Result {
 					fy = append(fy, n.GoType)
 				}
 				if o.shape != obs.Shape(fin.tree) || fmt.Sprintf("%q", o.texts) != fmt.Sprintf("%q", ft) || fmt.Sprint(o.types) != fmt.Sprint(fy) || obs.IsRow(e, refErrs) != fin.isRow {
-					res.Trouble = fmt.Sprintf("H1 and wire renaming disagree at the final knowing process: %q %v / %q %v", ft, fy, o.texts, o.types)
+					res.add(Violation{Prop: "C04", Oracle: "unknown-family-kept-opaque", Culprit: "final",
+						Expected: short(fmt.Sprintf("%q %v", ft, fy)), Observed: short(fmt.Sprintf("%q %v", o.texts, o.types)),
+						Where: "final knowing process, after a route whose unknown families were renamed on the wire"})
 				}
 			}
 			sim.Stats.Faults["rename-xcheck"]++
